@@ -56,6 +56,11 @@ EXTRA_BASE = [   # matrix-valued functions not in the C15 catalogue
     cat.E('base.trprint', [('T3',)], {'file': ('NONE',)}), cat.E('base.trprint2', [('T2',)], {'file': ('NONE',)}),
     cat.E('base.angdiff', [cat.V(None)]), cat.E('base.angdiff', [cat.V(3), cat.V(3)]), cat.E('base.removesmall', [('T3',)]),
     cat.E('base.det', [('R3',)]),
+    # planar counterparts and the matrix assemblers
+    cat.E('base.t2r', [('T2',)]), cat.E('base.r2t', [('R2',)]), cat.E('base.rt2tr', [('R3',), cat.V(3)]), cat.E('base.rt2tr', [('R2',), cat.V(2)]),
+    cat.E('base.Ab2M', [('R3',), cat.V(3)]), cat.E('base.Ab2M', [('R2',), cat.V(2)]), cat.E('base.trexp2', [cat.V((1, 3))]),
+    cat.E('base.getmatrix', [cat.V(6), ('LIT', (2, 3))]), cat.E('base.h2e', [cat.V(4)]), cat.E('base.e2h', [cat.V(3)]),
+    cat.E('m:Plucker.intersect_volume', [('BOUNDS',)], recv=('OBJ', 'Plucker')),
     # graphics (Agg backend, figures closed around each call): options given as lists
     cat.E('base.trplot', [('T3',)], {'dims': ('PLIST', 2)}, tags={'plot'}), cat.E('base.trplot', [('T3',)], {'dims': ('PLIST', 6)}, tags={'plot'}),
     cat.E('base.trplot2', [('T2',)], {'dims': ('PLIST', 2)}, tags={'plot'}), cat.E('base.trplot2', [('T2',)], {'dims': ('PLIST', 4)}, tags={'plot'}),
@@ -81,6 +86,12 @@ def gen_extra(rng, spec):
     if k == 'P4N':
         P = gen.vec(rng, 16, 1e-2, 1e2).reshape(4, 4)
         return P
+    if k == 'BOUNDS':      # axis limits of a plot volume as an array: [x0, x1, y0, y1, z0, z1], each pair in either order
+        b_ = np.array([float(rng.integers(3, 9)) * s_ for s_ in (-1, 1, -1, 1, -1, 1)])
+        for j_ in range(3):
+            if rng.random() < 0.5:
+                b_[2 * j_], b_[2 * j_ + 1] = b_[2 * j_ + 1], b_[2 * j_]
+        return b_
     if k == 'PLIST':       # plot limits [lo, hi] * (n / 2), as a list the caller keeps and may reuse
         a = float(rng.integers(2, 9))
         return [-a, a] * (spec[1] // 2)
